@@ -42,6 +42,15 @@ def extras():
     out.append((["Bitwise", ["Struct", [["a", B(4)], ["rest", ["GreedyRange", B(4)]]]]], [({"a": 5, "rest": [1]}, {"a": 5, "rest": [1]}), ({"a": 5, "rest": [1, 2, 3]}, {"a": 5, "rest": [1, 2, 3]})]))
     out.append((["Bitwise", ["Sequence", [[None, B(3)], [None, B(5)], [None, ["GreedyBytes"]]]]], [([1, 2, bits("10000001")], [1, 2, bits("10000001")]), ([7, 31, b""], [7, 31, b""])]))
     out.append((["BitsSwapped", ["Struct", [["a", ["VarInt"]], ["rest", ["GreedyBytes"]]]]], [({"a": 300, "rest": b"xyz"}, {"a": 300, "rest": b"xyz"})]))
+    # derived members computed from a LATER member whose name starts with an underscore (such members are ordinary members; the
+    # normalised parse result does not list them, so the expectation names the public ones)
+    BY = G.BYTE
+    out.append((["Struct", [["n", ["Rebuild", BY, ["fn", "len_", ["this", "_data"]]]], ["_data", ["Bytes", ["this", "n"]]], ["t", BY]]],
+                [({"_data": b"abc", "t": 1}, {"n": 3, "t": 1}), ({"_data": b"", "t": 2}, {"n": 0, "t": 2})]))
+    out.append((["Struct", [["hdr", ["Struct", [["cnt", ["Rebuild", BY, ["fn", "len_", ["path", ["_", "_items"]]]]]]]], ["_items", ["Array", ["path", ["hdr", "cnt"]], BY]], ["t", BY]]],
+                [({"hdr": {}, "_items": [1, 2], "t": 9}, {"hdr": {"cnt": 2}, "t": 9})]))
+    out.append((["Struct", [["_k", BY], ["v", ["Switch", ["this", "_k"], [[1, BY], [2, G.I(2, False, "b")]], None]], ["t", BY]]],
+                [({"_k": 2, "v": 258, "t": 1}, {"v": 258, "t": 1}), ({"_k": 1, "v": 7, "t": 1}, {"v": 7, "t": 1})]))
     return out
 
 
